@@ -352,6 +352,80 @@ def _option_known_some(prog, b, s):
     return None
 
 
+STORE_TYPES = ("aa::aa_framework::AAFramework", "aa::arguments::ArgumentSet", "utils::label::LabelSet")
+
+
+def _store_index_source_ok(prog, b, op, site, depth=0):
+    """is an index operand inside the framework store an id / position the store itself vouches for?
+    sources accepted: Label::id(..); an element read out of one of the store's own vectors; the position / index produced by
+    iterating such a vector; a parameter of a non-public helper whose every call passes such a value; a parameter under a
+    dominating range test against the store's own count"""
+    if depth > 3:
+        return False
+    os_ = list(origins(b, op, transparent=("core::ops::deref::Deref::deref", "core::clone::Clone::clone", "core::option::Option::unwrap", "core::option::Option::expect", "core::result::Result::unwrap", "core::result::Result::expect", "core::ops::try_trait::Try::branch", "anyhow::Context::with_context", "anyhow::Context::context")))
+    if not os_:
+        return False
+    for o in os_:
+        if o.kind == "call":
+            d = callee_decl(o.data)
+            if d == "utils::label::Label::id":
+                continue
+            if d in ("core::ops::index::Index::index", "core::iter::traits::iterator::Iterator::next", "core::iter::traits::iterator::Iterator::position", "core::slice::iter", "core::iter::traits::collect::IntoIterator::into_iter"):
+                # an element / a position of a vector of the store
+                fr = self_fields_read(b, o.site.node["args"][0]) if b.kind != "closure" else {"?"}
+                if fr or b.kind == "closure":
+                    continue
+                return False
+            if d in ("alloc::vec::Vec::len",):
+                return False  # len itself is out of bounds: left to the arithmetic guards
+            t = prog.body_for_callee(o.data, b) if o.data.get("decl") != "<indirect>" else None
+            if t is not None and t.kind != "closure" and t.impl and t.impl.get("self_adt") in STORE_TYPES and ("usize" in t.ret_ty):
+                continue  # a position / id computed by another method of the store
+            return False
+        elif o.kind == "param":
+            fn = prog.enclosing_fn(b)
+            if b.kind == "closure":
+                continue  # element of an iteration (over a store vector, see the parent)
+            # range test against the store's own count
+            guarded = False
+            for c in conditions(b, site.bb):
+                if c.is_discr:
+                    continue
+                for oo in origins(b, c.place, transparent=()):
+                    if oo.kind == "binop" and oo.data["op"] in ("Lt", "Ge", "Le", "Gt"):
+                        _, calls, _ = data_deps(b, c.place)
+                        if any(callee_matches(callee_of(x), r"n_arguments$|ArgumentSet::len$|LabelSet::len$|Vec::len$") for x in calls):
+                            sd, _, _ = data_deps(b, c.place, through_calls=False)
+                            if o.data in sd:
+                                guarded = True
+            if guarded:
+                continue
+            sig = prog.sigs.get(("lib", fn.path))
+            if sig is not None and sig["vis"] != "pub" and fn is b:
+                css = prog.callers_of(b)
+                if css and all(o.data - 1 < len(cs.node["args"]) and _store_index_source_ok(prog, cs.body, cs.node["args"][o.data - 1], cs, depth + 1) for cs in css):
+                    continue
+            return False
+        elif o.kind == "upvar":
+            continue  # captured id of the enclosing store method (judged there)
+        elif o.kind in ("undef", "partial"):
+            continue
+        else:
+            return False
+    return True
+
+
+def _store_internal_index(prog, b, s):
+    fn = prog.enclosing_fn(b)
+    if not (fn.impl and fn.impl.get("self_adt") in STORE_TYPES):
+        return None
+    if len(s.node.get("args") or []) < 2:
+        return None
+    if _store_index_source_ok(prog, b, s.node["args"][1], s):
+        return "index vouched for by the store itself (an id from Label::id, an element or position of one of its vectors, or a helper parameter bound to such a value by every caller): in range by the C12 invariants"
+    return None
+
+
 def _const_index_guard(prog, b, s):
     """v[k] with constant k under a dominating test fixing len(v)"""
     n = s.node
@@ -475,7 +549,7 @@ def rule_panic_census(ctx):
                             if "error" not in res:
                                 why = "constant pattern compiles (%d DFA product states explored)" % res.get("states", 0)
             elif kind in ("Index::index", "IndexMut::index_mut"):
-                why = _const_index_guard(prog, b, s)
+                why = _const_index_guard(prog, b, s) or _store_internal_index(prog, b, s)
             elif kind == "BoundsCheck":
                 why = _bounds_assert_guard(prog, b, s)
             elif kind == "Overflow:Add":
